@@ -267,7 +267,7 @@ class C06(StreamProp):
     rule = ('(max_frame_size, max_message_size, read_buffer_size) over {0,1,2,5,125,126,1000}^2 x {0,64,4096} x fragment patterns with sizes limit-1/limit/limit+1, '
             'text with a split code point at the limit, announced lengths up to 2^64-1 with no payload; compared with the independent decoder with the same limits; '
             'limits installed by set_config (at time zero and in the middle of a fragmented message; implementation-only cases, monitor only), every config setter/field pair; counting allocator on reads')
-    level_text = 'frame/message bounds, capacity errors, reject-before-payload and reserve bound proved on the model for all limits and lengths < 2^64; physical heap use is a runtime fact (partial)'
+    level_text = 'frame/message bounds, capacity errors, reject-before-payload and reserve bound proved on the model for all limits and lengths < 2^64, also along histories in which set_config changes the limits mid-message (C06b); physical heap use is a runtime fact (partial)'
     level_note = 'Trusted: Coq kernel, Codec.v/Message.v; allocator behaviour is outside the model'
     partial = 'physical heap use (BytesMut/Vec growth, allocator) cannot be exhibited by the model'
     def generate(self, tier, rng):
@@ -356,7 +356,7 @@ class C08(StreamProp):
     rule = ('from_utf8 vs model: all byte strings of length <= 2 and length 3-4 over a 24-letter alphabet of byte-class representatives (exhaustive in thorough), random longer; '
             'fragmented text through read: boundary scalars and every invalid form x cuts into <= 4 fragments; delivered text checked with Python bytes.decode; '
             'MA: Message/Frame accessor API (is_*, len, is_empty, into_data, into_text, to_text, Display, From/TryFrom conversions) on valid/invalid payloads of every message kind and raw frames at the length-form boundaries')
-    level_text = 'from_utf8 model = Unicode Table 3-7 grammar; collector accepts iff the concatenation is valid, wherever the cuts fall; every text reachable through read is valid (theorems); model of std::str::from_utf8 tied by exhaustive small strings'
+    level_text = 'from_utf8 model = Unicode Table 3-7 grammar; collector accepts iff the concatenation is valid, wherever the cuts fall; every text reachable through read or through the Message/Frame accessors (into_text, to_text, Display) is valid (theorems, C08b); model of std::str::from_utf8 tied by exhaustive small strings'
     level_note = 'Trusted: Coq kernel, Utf8.v (model of std + utf-8 0.7.6), correspondence'
     ALPHA = [0x00, 0x41, 0x7f, 0x80, 0x8f, 0x90, 0x9f, 0xa0, 0xbf, 0xc0, 0xc1, 0xc2, 0xdf, 0xe0, 0xe1, 0xec, 0xed, 0xee, 0xef, 0xf0, 0xf1, 0xf3, 0xf4, 0xf5]
     def generate(self, tier, rng):
@@ -993,7 +993,7 @@ class C07(E2Prop):
     debug_in_quick = True      # overflow checks / debug_assert! are this property's subject: the debug build runs in every tier
     rule = ('socket: random byte streams, mutated valid streams, boundary-crafted headers x per-call outcomes {n bytes, 0, WouldBlock, Interrupted, reset, other} on read/write/flush x roles x finite limits, plus all history generators; '
             'handshake: valid/invalid/endless heads x the same outcome kinds incl. zero-length writes; every case under catch_unwind; monitor: no panic, no out-of-fuel, bounded transport calls')
-    level_text = 'no modelled call returns Panic or OutOfFuel for any op list and any oracle (socket, finite limits) and any handshake round sequence (both roles); overflow sites unreachable below 2^63; panics inside dependencies are outside the model (catch_unwind support test)'
+    level_text = 'no modelled call returns Panic or OutOfFuel for any op list and any oracle (socket, finite limits; also with set_config installing arbitrary valid configurations mid-history, C07cfg) and any handshake round sequence (both roles); overflow sites unreachable below 2^63; panics inside dependencies are outside the model (catch_unwind support test)'
     level_note = 'Trusted: Coq kernel, all model files; internals of httparse/http/bytes/sha1/std are not modelled'
     partial = 'panics or loops inside dependencies (httparse, http, bytes, sha1, data-encoding, rand, std) are not modelled; every case runs under catch_unwind as a supporting test'
     def generate(self, tier, rng):
